@@ -10,7 +10,8 @@ EXPLANATION = ("Every function of the crate is analysed standalone by TermFlow; 
                "Layout::array / from_size_align, an existing slice's len * size_of), (b) as `len + n` after a reserve(n) on the same container, or (c) by an entry of the "
                "justified table carrying its invariant. (R2) every allocation in a public size-taking method uses a layout that is a Layout parameter, a type's layout, the layout "
                "of an existing value, or the Ok payload of a validating constructor. (R3) postcondition of RawVec's reserve family: every successful return entails "
-               "used + extra <= capacity (given used <= capacity), with wrapping arithmetic kept distinct from checked arithmetic.")
+               "used + extra <= capacity (given used <= capacity), with wrapping arithmetic kept distinct from checked arithmetic."
+               ' (R1 also) round_up idioms built from an unchecked addition, calls of the layout helper and allocation calls inside RawVec are sinks; (R5) justified from_size_align_unchecked sites; (R6) RawVec stores cap / ptr only after the last point that can fail.')
 RULE = "rule instance = (function, sink, arithmetic node) / (function, allocation) / (reserve function, return); distinct by (function, sink, normalised node)"
 
 NORM = re.compile(r'(@\d+|#\d+|\?\d+:|loop\d+:|_\d+@\d+|_\d+)')
